@@ -417,6 +417,10 @@ func locksetOf(fn *ssa.Function) map[ssa.Instruction]int {
 	out := map[ssa.Instruction]int{}
 	entry := fn.Blocks[0]
 	in[entry] = lkNone
+	// an immediately-invoked function literal runs with the lock state of its call site
+	if site := iifeSiteCached(fn); site != nil {
+		in[entry] = locksetOf(site.Parent())[site]
+	}
 	seen[entry] = true
 	work := []*ssa.BasicBlock{entry}
 	for len(work) > 0 {
@@ -641,12 +645,12 @@ func r13_3(c *Ctx) {
 				}
 			}
 			if keyOK && idLoad != nil {
-				keyOK = ls[idLoad] == lkW && instrDominates(idLoad, mu)
+				keyOK = locksetOf(idLoad.Parent())[idLoad] == lkW && instrDominates(idLoad, mu)
 			}
 			c.check(keyOK, name+":key", P.ipos(mu), "the key is the callbackID value read under the same exclusive lock", "the inserted key is not the callbackID counter read in the same critical section: two callbacks can get the same id and replace each other")
 			// increment before unlock on every path
 			var inc *ssa.Store
-			eachInstr(fn, func(x ssa.Instruction) {
+			eachInstrDeep(fn, func(x ssa.Instruction) {
 				st, ok := x.(*ssa.Store)
 				if !ok {
 					return
@@ -659,14 +663,23 @@ func r13_3(c *Ctx) {
 					return
 				}
 				k, isK := constInt(b.Y)
-				if _, ok := isFieldLoad(b.X, "Connection", "callbackID"); ok && isK && k == 1 {
+				fromCounter := true
+				for _, sv := range sources(b.X) {
+					if _, ok := isFieldLoad(sv, "Connection", "callbackID"); !ok {
+						fromCounter = false
+					}
+				}
+				if fromCounter && isK && k == 1 {
 					inc = st
 				}
 			})
-			incOK := inc != nil && ls[inc] == lkW
+			incOK := inc != nil && locksetOf(inc.Parent())[inc] == lkW
 			if incOK {
+				isInc := func(x ssa.Instruction) bool { return x == ssa.Instruction(inc) }
+				// no path through the insert may avoid the increment (before or after it, same critical section)
+				before := reachesAvoiding(entryPoint(fn), mu, isInc, nil)
 				for _, ret := range returnsOf(fn) {
-					if reachesAvoiding(afterInstr(mu), ret, func(x ssa.Instruction) bool { return x == ssa.Instruction(inc) }, nil) {
+					if before && reachesAvoiding(afterInstr(mu), ret, isInc, nil) {
 						incOK = false
 					}
 				}
@@ -770,7 +783,19 @@ func r13_4(c *Ctx) {
 						l2, ok := call.Call.Args[0].(*ssa.Lookup)
 						return ok && isOuter(l2.X) && capturedSame(l2.Index, lk.Index)
 					})
-					if ok && op == token.EQL && kk == 0 && edgeDominates(ifi.Block(), succ, d.Block()) {
+					_, _, _ = op, kk, succ
+					if e, okE := intEdge(ifi, func(v ssa.Value) bool {
+						call, ok := v.(*ssa.Call)
+						if !ok {
+							return false
+						}
+						b, ok := call.Call.Value.(*ssa.Builtin)
+						if !ok || b.Name() != "len" {
+							return false
+						}
+						l2, ok := call.Call.Args[0].(*ssa.Lookup)
+						return ok && isOuter(l2.X) && capturedSame(l2.Index, lk.Index)
+					}, 0, 0, 0); ok && okE && edgeDominates(ifi.Block(), e, d.Block()) {
 						g = true
 					}
 				}
